@@ -326,6 +326,14 @@ pub fn exp64_ok(x: f64, r: f64) -> bool {
     if x > -708.0 && r < f64::MIN_POSITIVE {
         return false;
     }
+    // factor-of-four enclosure: 2^(x log2 e - 2) <= exp(x) <= 2^(x log2 e + 2) (for results in the normal range)
+    if x > -708.0 && x < 709.7 {
+        let t = x * core::f64::consts::LOG2_E;
+        let e = expo64(r) as f64;
+        if !(e >= t - 2.0 && e <= t + 2.0) {
+            return false;
+        }
+    }
     if x > 0.0 { r >= 1.0 } else { r <= 1.0 }
 }
 pub fn exp32_ok(x: f32, r: f32) -> bool {
@@ -355,6 +363,13 @@ pub fn exp32_ok(x: f32, r: f32) -> bool {
     }
     if x > -87.0 && r < f32::MIN_POSITIVE {
         return false;
+    }
+    if x > -87.0 && x < 88.7 {
+        let t = (x as f64) * core::f64::consts::LOG2_E;
+        let e = expo32(r) as f64;
+        if !(e >= t - 2.0 && e <= t + 2.0) {
+            return false;
+        }
     }
     if x > 0.0 { r >= 1.0 } else { r <= 1.0 }
 }
@@ -550,6 +565,17 @@ pub fn c_pow64(x: f64, y: f64) -> f64 {
         POW64_VALID[POW64_NEXT] = true;
         POW64_NEXT = 1 - POW64_NEXT;
     }
+    r
+}
+/// memo-free variants (function-contract harnesses havoc statics)
+pub fn c_pow64_plain(x: f64, y: f64) -> f64 {
+    let r: f64 = kani::any();
+    kani::assume(pow64_ok(x, y, r));
+    r
+}
+pub fn c_pow32_plain(x: f32, y: f32) -> f32 {
+    let r: f32 = kani::any();
+    kani::assume(pow32_ok(x, y, r));
     r
 }
 static mut POW32_MEMO: [(u32, u32, u32); 2] = [(0, 0, 0); 2];
@@ -1025,4 +1051,10 @@ pub fn su01_64(w: u64) -> f64 {
 }
 pub fn su01_32(w: u64) -> f32 {
     (((w as u32) >> 8) as f32) * (1.0 / 16777216.0)
+}
+
+// a pdf value chosen by the harness (wedge edge checks of the ziggurat): the stub for exp returns it
+pub static mut FIXED_EXP: f64 = 0.0;
+pub fn c_exp64_fixed(_x: f64) -> f64 {
+    unsafe { FIXED_EXP }
 }
